@@ -84,6 +84,9 @@ class Real(object):
         self.acc = {}       # (task, route) -> accumulated item results
         self.steps = []
         self.started = False
+        self.persist_points = None   # None | "all" | set of call ordinals after which to persist+restore
+        self.ncalls = 0
+        self.reser = []              # (digest before, digest after re-serialising the restored conductor)
 
     # ---- snapshots ---------------------------------------------------------------------------
     def clone(self):
@@ -106,6 +109,7 @@ class Real(object):
         n.acc = {k: list(v) for k, v in self.acc.items()}
         n.steps = []
         n.started = self.started
+        n.persist_points, n.ncalls, n.reser = self.persist_points, self.ncalls, list(self.reser)
         return n
 
     # ---- projection --------------------------------------------------------------------------
@@ -197,7 +201,43 @@ class Real(object):
         step = {"call": call, "ret": ret, "obs": self.project(offers)}
         step.update(extra)
         self.steps.append(step)
+        self.ncalls += 1
+        pp = self.persist_points
+        if pp is not None and call["op"] != "persist" and (pp == "all" or self.ncalls in pp):
+            self._persist_restore()
         return step
+
+    def _persist_restore(self):
+        import hashlib, json
+        s1 = self.c.serialize()
+        self.c = conducting.WorkflowConductor.deserialize(s1)
+        s2 = self.c.serialize()
+        dg = lambda x: hashlib.sha1(json.dumps(x, sort_keys=True, default=str).encode()).hexdigest()
+        self.reser.append([dg(s1), dg(s2)])
+
+    def fin(self):
+        """Final observation of a run, for the relational checks (spec/Groups.tla)."""
+        o = self.project()
+        return {"wf": o["wf"], "execd": dict(self.visit), "errs": o["errs"], "out": o["out"],
+                "hasout": o["hasout"],
+                "pubs": sorted(o["ctxs"][1:], key=lambda x: __import__("json").dumps(x, sort_keys=True)),
+                "rest": not [k for k, st in self.acts.items() if st in ACTIVE_ACTION],
+                "nseq": len(o["seq"])}
+
+    def trail(self):
+        """Per API call: (offers, digest of the persisted form) - what C05 compares step by step."""
+        import hashlib, json
+        out = []
+        for s in self.steps:
+            if s["call"]["op"] == "persist":
+                continue
+            o = dict(s["obs"])
+            for k in ("infl", "dorm", "q", "offers"):
+                o.pop(k, None)
+            out.append([s["call"]["op"], s["ret"],
+                        hashlib.sha1(json.dumps(o, sort_keys=True).encode()).hexdigest()[:16],
+                        hashlib.sha1(json.dumps(s["obs"]["offers"], sort_keys=True).encode()).hexdigest()[:16]])
+        return out
 
     @staticmethod
     def mkcall(op, task="none", route=-1, item=-1, st="none", res=None, arg=None, acc=None):
